@@ -19,6 +19,7 @@ import (
 	"errors"
 	"fmt"
 	"strings"
+	"sync/atomic"
 	"testing"
 	"time"
 
@@ -137,6 +138,9 @@ func skipVerify(v engine.Vec) bool {
 	return false
 }
 
+// obligations[entry point][either|mustAccept|mustReject]: how many executions carried which obligation.
+var obligations [7][3]atomic.Int64
+
 func (w *worker) verifyCase(v engine.Vec) engine.Result {
 	verifier := verifiers[v[iVerifier]]
 	mut := mutations[v[iMut]]
@@ -154,6 +158,7 @@ func (w *worker) verifyCase(v engine.Vec) engine.Result {
 	o := w.run(runCfg{verifier: verifier, token: token, allowed: cfgAllowed, ks: ks, ksID: ksID, cache: vspace[iCache].Vals[v[iCache]]})
 
 	rule := vd.rule
+	obligations[v[iVerifier]][vd.want].Add(1)
 	if o.class == "panic" {
 		if vd.want == mustAccept {
 			return engine.Bad(rule, "panic", "C02/panic-on-valid-token/"+verifier, "verifier panicked on a token that must be accepted")
@@ -405,6 +410,11 @@ func TestCheck(t *testing.T) {
 	})
 
 	c.Extra("verify_wall_s", time.Since(t0).Seconds())
+	per := map[string]map[string]int64{}
+	for i, name := range verifiers {
+		per[name] = map[string]int64{"either": obligations[i][either].Load(), "must_accept": obligations[i][mustAccept].Load(), "must_reject": obligations[i][mustReject].Load()}
+	}
+	c.Extra("obligations_per_entry_point", per)
 	t0 = time.Now()
 	slots := engine.Pick(c, 3, 4)
 	if c.ReplayFile != "" {
